@@ -5,6 +5,7 @@ EXTENDS FastParse, SequencesExt
 CONSTANTS TreeLevel,   \* 0: no generic trees, 1: quick alphabets, 2: thorough alphabets
           MaxHitsKeys, \* generic trees: up to MaxHitsKeys members in the object under `hits` (root: up to 3)
           MaxItems,    \* bulk responses of up to MaxItems items
+          MaxWideItems,\* ... and of up to MaxWideItems items over the wide item alphabet (status x _shards x operation)
           MaxHits,     \* search responses of up to MaxHits hits
           MaxPages     \* paginated runs of up to MaxPages responses
 
@@ -42,7 +43,7 @@ AkV == {Obj(<<>>), O1("geo.src", S1), O2("source.ip", S1, "destination.ip", Num(
 UnderHits == [k \in {"total", "hits", "ak", "x"} |->
                 CASE k = "total" -> TotalV [] k = "hits" -> ListV [] k = "ak" -> AkV [] k = "x" -> {Num(1)}]
 HitsV == {Num(1), Arr(<<>>)} \cup Objs(MaxHitsKeys, UnderHits)
-TookV == {Num(5), NullV, O1("took", Num(2))} \cup (IF TreeLevel > 1 THEN {S1, Arr(<<Num(2)>>), TrueV} ELSE {})
+TookV == {Num(5), O1("took", Num(2))} \cup (IF TreeLevel > 1 THEN {NullV, S1, Arr(<<Num(2)>>), TrueV} ELSE {})
 RootXV == {Num(1), O1("took", Num(2))} \cup (IF TreeLevel > 1 THEN {O1("hits", O1("total", Num(9)))} ELSE {})
 UnderRoot == [k \in {"took", "hits", "x"} |-> CASE k = "took" -> TookV [] k = "hits" -> HitsV [] k = "x" -> RootXV]
 RootKeySeqs == OrdSeqs(DOMAIN UnderRoot, 3)
@@ -77,6 +78,27 @@ BulkTree(items, errors, ord) ==
 BulkInputs == {[kind |-> "bulk", tree |-> BulkTree(its, e, ord), unit |-> u, size |-> IF u = "docs" THEN Len(its) ELSE 5] :
                   its \in Seqs(ItemAlphabet, MaxItems), e \in BOOLEAN, ord \in 1..4, u \in {"docs", "ops"}}
 
+(* the wide item alphabet: status {2xx, 404, 409, 429, 5xx} x _shards {absent, failed 0, failed > 0}, operations index / create /   *)
+(* update / delete, `result`; a 404 comes with an `error` (update of a missing document) and without (delete: result not_found);  *)
+(* `errors` follows Elasticsearch's rule (true iff some item carries an `error`)                                                 *)
+WideData(status, sf, result, reason) ==
+    Obj(<<KV("_index", S1), KV("_id", S2)>>
+        \o (IF result # "" THEN <<KV("result", Known(result))>> ELSE <<>>)
+        \o (IF sf >= 0 THEN <<KV("_shards", Obj(<<KV("total", Num(2)), KV("successful", Num(2 - sf)), KV("failed", Num(sf))>>))>> ELSE <<>>)
+        \o <<KV("status", Num(status))>>
+        \o (IF reason # Absent THEN <<KV("error", O2("type", S3, "reason", reason))>> ELSE <<>>))
+WideItems == {O1("index", WideData(201, sf, "created", Absent)) : sf \in {-1, 0, 1}}
+             \cup {O1("update", WideData(200, sf, "noop", Absent)) : sf \in {-1, 0}}
+             \cup {O1("delete", WideData(200, 1, "deleted", Absent))}
+             \cup {O1("delete", WideData(404, sf, "not_found", Absent)) : sf \in {-1, 0, 1}}
+             \cup {O1("update", WideData(404, sf, "", S1)) : sf \in {-1, 0, 1}}
+             \cup {O1("create", WideData(409, sf, "", S1)) : sf \in {-1, 0, 1}}
+             \cup {O1("index", WideData(429, sf, "", S2)) : sf \in {-1, 0, 1}}
+             \cup {O1("delete", WideData(503, sf, "", S2)) : sf \in {-1, 0, 1}}
+AnyError(its) == \E i \in 1..Len(its) : Lookup(its[i].kv[1].v, <<"error">>) # Absent
+WideBulkInputs == {[kind |-> "bulk", tree |-> BulkTree(its, AnyError(its), ord), unit |-> u, size |-> IF u = "docs" THEN Len(its) ELSE 5] :
+                      its \in Seqs(WideItems, MaxWideItems) \ {<<>>}, ord \in {2, 3}, u \in {"docs", "ops"}}
+
 -----------------------------------------------------------------------------
 (* search responses for the extractors *)
 SortV == {Absent, Arr(<<Num(1)>>), Arr(<<S1>>), Arr(<<SB>>), Arr(<<Num(1), S1>>), Arr(<<S1, SB>>)}
@@ -92,37 +114,52 @@ SearchTree(hits, total, hitsFirst, pitId) ==
     LET h == KV("hits", O2("total", total, "hits", Arr(hits)))
         rest == <<KV("took", Num(4)), KV("timed_out", FalseV)>> \o Opt("pit_id", pitId)
     IN Obj(IF hitsFirst THEN <<h>> \o rest ELSE rest \o <<h>>)
+(* hits.total in both shapes x value {0, > 0} x relation {eq, gte} (and relation before value) *)
+AllTotals == {Num(0), Num(3)} \cup {O2("value", Num(v), "relation", Known(r)) : v \in {0, 3}, r \in {"eq", "gte"}}
+             \cup {O2("relation", Known("eq"), "value", Num(0)), O1("value", Num(0))}
+PlainHits == {<<>>, <<HitOf(Arr(<<Num(1), S1>>), O1("f", S2), FALSE)>>}
 PagedArgs == {<<FALSE, Absent, Absent>>, <<TRUE, Absent, S3>>, <<TRUE, Absent, Absent>>, <<FALSE, Num(3), Absent>>}   \* pit, hits_total, pit_id
 SaInputs == {[kind |-> "sa", tree |-> SearchTree(hs, tot, hf, a[3]), lex |-> [brackets |-> {"s:b"}, spc |-> spc], pit |-> a[1], ht |-> a[2]] :
                 hs \in HitSeqs, tot \in TotalForms, hf \in BOOLEAN, spc \in BOOLEAN, a \in PagedArgs}
 
+SaTotalInputs == {[kind |-> "sa", tree |-> SearchTree(hs, tot, hf, a[3]), lex |-> [brackets |-> {"s:b"}, spc |-> FALSE], pit |-> a[1], ht |-> a[2]] :
+                     hs \in PlainHits, tot \in AllTotals \ TotalForms, hf \in BOOLEAN, a \in PagedArgs}     \* (the others are in SaInputs)
+
 AfterV == {Absent, Obj(<<>>), O1("a", S1), O2("a", S1, "b", Num(2)), O2("b", TrueV, "a", SB), O2("a", NullV, "b", Num(1)),
            O1("geo.src", S1), O2("source.ip", S1, "destination.ip", S2),
            Obj(<<KV("geo.src", S1), KV("geo.dest", Num(2)), KV("a.b.c", NullV)>>)}
-CompTree(path, after, aggFirst, pitId) ==
+CompTreeT(path, after, aggFirst, pitId, tot) ==
     LET c == Obj(Opt("after_key", after) \o <<KV("buckets", Arr(<<>>))>>)
         a == KV("aggregations", IF Len(path) = 1 THEN O1(path[1], c) ELSE O1(path[1], O2("doc_count", Num(1), path[2], c)))
-        rest == <<KV("took", Num(4)), KV("timed_out", FalseV), KV("hits", O2("total", Num(3), "hits", Arr(<<>>)))>> \o Opt("pit_id", pitId)
+        rest == <<KV("took", Num(4)), KV("timed_out", FalseV), KV("hits", O2("total", tot, "hits", Arr(<<>>)))>> \o Opt("pit_id", pitId)
     IN Obj(IF aggFirst THEN <<a>> \o rest ELSE rest \o <<a>>)
+CompTree(path, after, aggFirst, pitId) == CompTreeT(path, after, aggFirst, pitId, Num(3))
+CaTotalInputs == {[kind |-> "ca", tree |-> CompTreeT(<<"c">>, af, b, a[3], tot), pit |-> a[1], ht |-> a[2], path |-> <<"c">>] :
+                     af \in {Absent, O1("a", S1)}, b \in BOOLEAN, a \in PagedArgs, tot \in AllTotals \ {Num(3)}}
 CaInputs == {[kind |-> "ca", tree |-> CompTree(p, af, b, a[3]), pit |-> a[1], ht |-> a[2], path |-> p] :
                 p \in {<<"c">>, <<"n", "c">>}, af \in AfterV, b \in BOOLEAN, a \in PagedArgs}
 
 BodyInputs == {[kind |-> "body", tree |-> Obj(s)] :
                  s \in {x \o y \o z : x \in {<<>>, <<KV("took", Num(4)), KV("timed_out", TrueV)>>, <<KV("timed_out", FalseV), KV("took", Num(4))>>},
                                       y \in {<<>>, <<KV("_shards", Obj(<<KV("total", Num(5)), KV("successful", Num(4)), KV("skipped", Num(0)), KV("failed", Num(1))>>))>>},
-                                      z \in {<<KV("hits", O2("total", tot, "hits", Arr(<<>>)))>> : tot \in TotalForms \cup {O2("relation", Known("eq"), "value", Num(0))}}
+                                      z \in {<<KV("hits", O2("total", tot, "hits", Arr(<<>>)))>> : tot \in TotalForms \cup AllTotals}
                                            \cup {<<KV("hits", O1("hits", Arr(<<O1("_id", S1)>>)))>>}}}
 
 (* pages for the scroll / search_after accounting: nh hits with sort [1], [2], ...; total tot *)
 PageTree(nh, tot, to, sid) ==
     Obj(Opt("_scroll_id", sid) \o <<KV("took", Num(2)), KV("timed_out", IF to THEN TrueV ELSE FalseV),
           KV("hits", O2("total", O2("value", Num(tot), "relation", Known("eq")), "hits", Arr([i \in 1..nh |-> O2("_id", S1, "sort", Arr(<<Num(i)>>))])))>>)
+PageTreeT(nh, total) ==
+    Obj(<<KV("_scroll_id", S2), KV("took", Num(2)), KV("timed_out", FalseV),
+          KV("hits", O2("total", total, "hits", Arr([i \in 1..nh |-> O2("_id", S1, "sort", Arr(<<Num(i)>>))])))>>)
 PageSet == {PageTree(nh, tot, FALSE, S2) : nh \in 0..2, tot \in {0, 2, 3}} \cup {PageTree(1, 3, TRUE, S2), PageTree(2, 3, FALSE, Absent)}
+           \cup {PageTreeT(0, Num(0)), PageTreeT(2, Num(3)), PageTreeT(0, O2("value", Num(0), "relation", Known("gte"))),
+                 PageTreeT(1, O2("value", Num(3), "relation", Known("gte")))}
 PageSeqs == Seqs(PageSet, MaxPages) \ {<<>>}
 ScrollInputs == {[kind |-> "scroll", pages |-> ps, size |-> sz, maxp |-> mp] : ps \in PageSeqs, sz \in {1, 2}, mp \in 0..3}
 PagedInputs == {[kind |-> "paged", pages |-> ps, lex |-> [brackets |-> {}, spc |-> FALSE], size |-> sz, maxp |-> mp] :
                    ps \in PageSeqs, sz \in {1, 2}, mp \in 0..3}
 
 NoInputs == <<>>
-AllInputs == TreeInputSets \o <<BulkInputs, SaInputs, CaInputs, BodyInputs, ScrollInputs, PagedInputs>>
+AllInputs == TreeInputSets \o <<BulkInputs, WideBulkInputs, SaInputs, SaTotalInputs, CaInputs, CaTotalInputs, BodyInputs, ScrollInputs, PagedInputs>>
 =============================================================================
